@@ -941,7 +941,18 @@ impl<'a, 'r, 'mt> ConstantEvaluateContext<'a, 'r, 'mt> {
                 );
             }
             id if id == self.div_fn => &args[0].v / &args[1].v,
-            id if id == self.rem_fn => &args[0].v % &args[1].v,
+            id if id == self.rem_fn => {
+                // At run time the remainder is computed together with the quotient, which
+                // overflows for signed `MIN % -1`: it is an error here as it is there.
+                let (q, r) = args[0].v.div_rem(&args[1].v);
+                if let Err(err) = validate_literal(db, args[0].ty, &q) {
+                    return to_missing(self.diagnostics.report(
+                        expr.stable_ptr.untyped(),
+                        SemanticDiagnosticKind::LiteralError(err),
+                    ));
+                }
+                r
+            }
             id if id == self.bitand_fn => &args[0].v & &args[1].v,
             id if id == self.bitor_fn => &args[0].v | &args[1].v,
             id if id == self.bitxor_fn => &args[0].v ^ &args[1].v,
